@@ -10,6 +10,7 @@ import (
 	"crypto/tls"
 	"fmt"
 	"os"
+	"strconv"
 	"strings"
 	"testing"
 	"testing/synctest"
@@ -77,6 +78,17 @@ func vfRoundTrip(p *vfPair, tag string, wait time.Duration) string {
 	s2c := []byte("s2c-" + tag + "-" + vfShortHash(tag, "s2c", fmt.Sprint(time.Now().UnixNano())))
 	nc := len(p.S.ReadsSnapshot())
 	ns := len(p.C.ReadsSnapshot())
+	mark := p.Net.LogLen()
+	tail := func() string {
+		var parts []string
+		for _, w := range p.Net.LogSince(mark) {
+			if !w.Deliver && len(parts) < 12 {
+				parts = append(parts, fmt.Sprintf("%v %s:%s", w.VTime, w.From, vfDescribe(w.Data, 0)))
+			}
+		}
+
+		return fmt.Sprintf("; emissions since the writes: %v; emitted so far c=%d s=%d", parts, len(p.Net.Emissions("c")), len(p.Net.Emissions("s")))
+	}
 	if _, err := p.C.Conn.Write(c2s); err != nil {
 		return "client Write: " + err.Error()
 	}
@@ -93,10 +105,10 @@ func vfRoundTrip(p *vfPair, tag string, wait time.Duration) string {
 	sr := p.S.ReadsSnapshot()
 	cr := p.C.ReadsSnapshot()
 	if len(sr) <= nc {
-		return fmt.Sprintf("server never read the client's payload (pump err %v)", p.S.PumpErr())
+		return fmt.Sprintf("server never read the client's payload (pump err %v)", p.S.PumpErr()) + tail()
 	}
 	if len(cr) <= ns {
-		return fmt.Sprintf("client never read the server's payload (pump err %v)", p.C.PumpErr())
+		return fmt.Sprintf("client never read the server's payload (pump err %v)", p.C.PumpErr()) + tail()
 	}
 	if !bytes.Equal(sr[nc], c2s) {
 		return fmt.Sprintf("server read %q, client wrote %q", sr[nc], c2s)
@@ -299,7 +311,17 @@ func TestVF_C01(t *testing.T) {
 		}
 		vfLoadReplay(t, &rf)
 		vfDumpWire = os.Getenv("VERIF_DUMP") != ""
-		synctest.Test(t, func(t *testing.T) { vfC01Case(t, res, rf.Replay.Case, suites[rf.Replay.Case%len(suites)]) })
+		// key pairs, signatures (hence DER lengths and fragment boundaries) and record-number masks are not
+		// replayable: VERIF_REPLAY_REPEAT re-runs the case until the outcome shows up
+		reps := 1
+		if v, err := strconv.Atoi(os.Getenv("VERIF_REPLAY_REPEAT")); err == nil && v > 0 {
+			reps = v
+		}
+		for k := 0; k < reps && len(res.Violations) == 0; k++ {
+			t.Run(fmt.Sprintf("rep%d", k), func(t *testing.T) {
+				synctest.Test(t, func(t *testing.T) { vfC01Case(t, res, rf.Replay.Case, suites[rf.Replay.Case%len(suites)]) })
+			})
+		}
 		res.NonTrivial("replay-extra")
 		res.Finish(t)
 
